@@ -84,8 +84,8 @@ def run(ctx):
             continue
         nexec += r["nexec"]
         ctx.events += r["events"]
-        for k in ("sock_calls", "short", "eagain", "gzip", "cache"):
-            stats[k] += r["stats"][k]
+        for k in ("sock_calls", "short", "eagain", "gzip", "cache", "pend_le_n_lt_total", "rid_other"):
+            stats[k] = stats.get(k, 0) + r["stats"][k]
         for k in ("maxrec", "max_body"):
             stats[k] = max(stats[k], r["stats"][k])
         for k in ("by_proto", "by_mode", "by_kind"):
@@ -143,11 +143,17 @@ def validate(ctx, trace, shard, lock):
            "stats": {"sock_calls": 0, "short": 0, "eagain": 0, "maxrec": 0, "by_proto": {}, "by_mode": {}, "by_kind": {}, "gzip": 0, "cache": 0,
                      "max_body": 0}}
     st = res["stats"]
+    st["pend_le_n_lt_total"] = 0
+    st["rid_other"] = 0
+    pend = 0
     cur = None
     start_of = []
     for i, ln in enumerate(lines):
         if ln.startswith('{"e":"Reset"'):
             cur = json.loads(ln)
+            pend = 0
+            if cur.get("rid", 1) != 1:
+                st["rid_other"] += 1
             start_of.append(i)
             res["nexec"] += 1
             st["by_proto"][cur["proto"]] = st["by_proto"].get(cur["proto"], 0) + 1
@@ -169,6 +175,15 @@ def validate(ctx, trace, shard, lock):
                     d = "FastCGI record not 8-aligned (mechanism only): " + brief(cur)
                     if len(ctx.drift) < 5:
                         ctx.drift.append(d)
+        elif ln.startswith('{"e":"Sock"'):
+            ev = json.loads(ln)
+            # nonblocking_write with an old queue: did the socket take the whole old queue plus a strict prefix of the new data?
+            if cur and cur["mode"] in ("async", "async_raw"):
+                if pend and ev["offered"] > pend and "accepted" in ev and pend <= ev["accepted"] < ev["offered"]:
+                    st["pend_le_n_lt_total"] += 1
+                pend = ev["offered"] - ev.get("accepted", 0) if ev["iov"] <= 16 else 0
+        elif ln.startswith('{"e":"App"') and '"AFlushDone"' in ln:
+            pend = 0
         elif ln.startswith('{"e":"Cache"'):
             st["cache"] += 1
         elif ln.startswith('{"e":"Hang"'):
